@@ -165,11 +165,27 @@ class AbsKDDataset(VAbs):
         _nonneg(st, self.name + "$len", self.idx)
         return VInt(self.n)
 
+    int_labels = False       # are `class` items integer labels in [-1, C)?
+    owned_lists = False      # does getall_*() hand out the dataset's own list object (aliasing matters)?
+
+    def ncls(self):
+        return _fn(self.name + "$num_classes", self.idx, z3.IntSort())
+
     def item(self, name_t, k):
+        if self.int_labels and name_t.eq(VStr("class").t):
+            return VInt(_fn(self.name + "$label", self.idx, z3.IntSort(), (k,)))
         return VVal(_fn(self.name + "$item", self.idx, ValSort, (name_t, k)))
 
+    def label_axioms(self, st):
+        if not self.int_labels or self.idx or getattr(st, "_lab_" + self.name, False):
+            return
+        setattr(st, "_lab_" + self.name, True)
+        k = z3.Int(uid("k"))
+        lab = _fn(self.name + "$label", self.idx, z3.IntSort(), (k,))
+        st.assume(self.ncls() >= 1, z3.ForAll([k], z3.And(-1 <= lab, lab < self.ncls()), patterns=[lab]))
+
     def all_of(self, name_t, kind=None):
-        sq = VSeq(self.n, lambda k: self.item(name_t, k), VAL)
+        sq = VSeq(self.n, lambda k: self.item(name_t, k), INT if (self.int_labels and name_t.eq(VStr("class").t)) else VAL)
         sq.kind = _fn(self.name + "$allkind", self.idx, z3.IntSort(), (name_t,)) if kind is None else kind
         return sq
 
@@ -197,10 +213,21 @@ class AbsKDDataset(VAbs):
 
         def g(args, kwargs, s, e):
             _nonneg(s, self.name + "$len", self.idx)
-            return self.all_of(name_t)
+            sq = self.all_of(name_t)
+            if e.spec_depth or not self.owned_lists:
+                return sq
+            sq.kind = None          # a python list that the wrapped dataset may hand out by reference
+            ref = s.alloc(sq)
+            s.owned = getattr(s, "owned", frozenset()) | {ref.oid}
+            return ref
         return VFunc("lower.getall", g)
 
     def getattr(self, name, st, eng):
+        self.label_axioms(st)
+        if name in ("getdim_class",) and self.int_labels:
+            return VFunc("lower.getdim_class", lambda a, k, s, e: VInt(self.ncls()))
+        if name in ("getshape_class",) and self.int_labels:
+            return VFunc("lower.getshape_class", lambda a, k, s, e: VTuple([VInt(self.ncls())]))
         if name.startswith("getitem_"):
             return self._getter(self._name_term(name), "getitem")
         if name.startswith("getall_"):
@@ -245,6 +272,14 @@ class AbsKDDataset(VAbs):
 
 
 KDDATASET = TAbs(lambda name, idx: AbsKDDataset(name, idx), "kd-dataset")
+
+
+class _LabelDataset(AbsKDDataset):
+    int_labels = True
+    owned_lists = True
+
+
+LABELDATASET = TAbs(lambda name, idx: _LabelDataset(name, idx), "kd-dataset(int labels)")
 
 def _upd(seq, k, v):
     return VSeq(seq.len, lambda i, seq=seq, k=k, v=v: ite(i == k, v, seq.elem(i)), seq.etype)
@@ -616,6 +651,12 @@ def install_spec_builtins(eng):
         nm = args[1].s
         return args[0].item(VStr(nm).t, _e.to_int(args[2]))
     eng.spec_builtins["KItem"] = VFunc("KItem", kitem)
+
+    def label_of(args, kwargs, st, eng):
+        args[0].label_axioms(st)
+        return args[0].item(VStr("class").t, _e.to_int(args[1]))
+    eng.spec_builtins["LabelOf"] = VFunc("LabelOf", label_of)
+    eng.spec_builtins["NumClasses"] = VFunc("NumClasses", lambda a, k, s, e: VInt(a[0].ncls()))
 
     def root(args, kwargs, st, eng):
         return args[0].getattr("root_dataset", st, eng)
